@@ -68,6 +68,9 @@ func (s *Sim) registerBlock(b *types.Block, ps *types.PartSet, byByz bool, kind 
 		return kb
 	}
 	kb := &knownBlock{block: b, parts: ps, id: id, height: b.Height(), byByz: byByz, kind: kind}
+	if ne := len(b.Evidence().Evidence); ne > 0 || b.NumTxs() > 0 {
+		s.trace("BLOCK %s h%d by %x carries %d evidence, %d txs (%s)", short(id.Hash), b.Height(), b.ProposerAddress().Bytes()[:3], ne, b.NumTxs(), kind)
+	}
 	s.blocks[key] = kb
 	s.blocksByH[b.Height()] = append(s.blocksByH[b.Height()], kb)
 	return kb
@@ -84,6 +87,36 @@ func (s *Sim) learnBlocks(rss map[int]*cstypes.RoundState) {
 			s.registerBlock(rs.LockedBlock, rs.LockedBlockParts, false, "correct")
 		}
 	}
+}
+
+// learnAll registers the complete blocks correct nodes currently hold (both phases).
+func (s *Sim) learnAll() {
+	rss := map[int]*cstypes.RoundState{}
+	for _, n := range s.liveNodes() {
+		if !n.Mgr.WaitSync() {
+			rss[n.ID] = rsOf(n)
+		}
+	}
+	s.learnBlocks(rss)
+	for _, n := range s.liveNodes() {
+		saved := n.BOper.SavedCopy()
+		for _, sb := range saved[s.learnedSaved[n.ID]:] {
+			if s.blockKnown(sb.Height, sb.Hash) {
+				continue
+			}
+			s.registerBlock(sb.Block, sb.Block.MakePartSet(types.BlockPartSizeBytes), false, "correct")
+		}
+		s.learnedSaved[n.ID] = len(saved)
+	}
+}
+
+func (s *Sim) blockKnown(h uint64, bh common.Hash) bool {
+	for _, kb := range s.blocksByH[h] {
+		if kb.id.Hash == bh {
+			return true
+		}
+	}
+	return false
 }
 
 func sortedKeys(m map[int]*cstypes.RoundState) []int {
@@ -234,7 +267,7 @@ func (s *Sim) byzAct(b *Byz, target *kit.Node, rs *cstypes.RoundState) {
 	}
 }
 
-var invalidRules = []string{"height+1", "last-block-id", "commit-other-block", "commit-bad-sig", "commit-below-quorum", "app-hash",
+var invalidRules = []string{"commit-nil-votes-counted", "height+1", "last-block-id", "commit-other-block", "commit-bad-sig", "commit-below-quorum", "app-hash",
 	"validators-hash", "next-validators-hash", "time+1ns", "time-not-after-parent", "unknown-proposer", "num-txs", "data-hash", "commit-hash"}
 
 // byzPropose crafts b's proposal for the target's (h, r).
@@ -364,6 +397,45 @@ func (s *Sim) craftBlock(b *Byz, target *kit.Node, rs *cstypes.RoundState, st cs
 			}
 			if !c.Signatures[i].Absent() {
 				have -= st.LastValidators.Validators[i].VotingPower
+				c.Signatures[i] = types.NewCommitSigAbsent()
+			}
+		}
+		cm = &c
+	case "commit-nil-votes-counted":
+		// signatures of +2/3 of the power, but at most 2/3 of it for the block: the rest are
+		// this validator's own (genuinely signed) nil precommits
+		if h == st.InitialHeight {
+			return nil
+		}
+		c := *commit
+		c.Signatures = append([]types.CommitSig(nil), commit.Signatures...)
+		tot := st.LastValidators.TotalVotingPower()
+		var forBlock int64
+		for i := range c.Signatures {
+			if c.Signatures[i].ForBlock() {
+				forBlock += st.LastValidators.Validators[i].VotingPower
+			}
+		}
+		for i := range c.Signatures {
+			val := st.LastValidators.Validators[i]
+			if val.Address != b.Addr {
+				continue
+			}
+			if c.Signatures[i].ForBlock() {
+				forBlock -= val.VotingPower
+			}
+			nv := s.byzVote(b, st.LastValidators, h-1, commit.Round, kproto.PrecommitType, types.BlockID{}, st.LastBlockTime)
+			if nv == nil {
+				return nil
+			}
+			c.Signatures[i] = types.CommitSig{BlockIDFlag: types.BlockIDFlagNil, ValidatorAddress: b.Addr, Timestamp: nv.Timestamp, Signature: nv.Signature}
+		}
+		for i := range c.Signatures {
+			if forBlock*3 <= tot*2 {
+				break
+			}
+			if c.Signatures[i].ForBlock() {
+				forBlock -= st.LastValidators.Validators[i].VotingPower
 				c.Signatures[i] = types.NewCommitSigAbsent()
 			}
 		}
